@@ -989,8 +989,15 @@ fn main() {
             if std::env::var("C04_TRACE_PANICS").is_ok() {
                 eprintln!("input: entry={} opts={:?} cmds={:?}", entry, opts, cmds);
             }
+            // two cases in three: ONE tessellator object serves the reference run and every fault
+            // position of the case, so each call after the first runs on an object with a history of
+            // aborted calls (the model predicts every call as if made on a fresh object)
+            let shared = std::cell::RefCell::new(FillTessellator::new());
+            let reuse = (cmds.len() + n_entries) % 3 != 0;
             let run = move |out: &mut dyn FillGeometryBuilder, log: &Log| -> TessellationResult {
-                let mut tess = FillTessellator::new();
+                let mut fresh = FillTessellator::new();
+                let mut guard = if reuse { shared.try_borrow_mut().ok() } else { None };
+                let tess: &mut FillTessellator = match guard.as_mut() { Some(g) => &mut **g, None => &mut fresh };
                 match entry {
                     "events" | "badtol" => tess.tessellate(Logged { it: path.iter(), log: log.clone() }, &opts, out),
                     "path" => tess.tessellate_path(&path_attr, &opts, out),
@@ -1054,8 +1061,12 @@ fn main() {
             );
             let path = build_path(&cmds, None);
             let path_attr = build_path(&cmds, Some(&[1.0, 2.0, 0.5]));
+            let shared = std::cell::RefCell::new(StrokeTessellator::new());
+            let reuse = cmds.len() % 3 != 0;
             let run = move |out: &mut dyn StrokeGeometryBuilder, log: &Log| -> TessellationResult {
-                let mut tess = StrokeTessellator::new();
+                let mut fresh = StrokeTessellator::new();
+                let mut guard = if reuse { shared.try_borrow_mut().ok() } else { None };
+                let tess: &mut StrokeTessellator = match guard.as_mut() { Some(g) => &mut **g, None => &mut fresh };
                 match entry {
                     "events" => tess.tessellate(Logged { it: path.iter(), log: log.clone() }, &opts, out),
                     "path" => tess.tessellate_path(&path, &opts, out),
@@ -1106,8 +1117,11 @@ fn main() {
             let min = point(rng.range(-8, 8) as f32, rng.range(-8, 8) as f32);
             let size = vector(rng.range(0, 8) as f32, rng.range(0, 8) as f32);
             let radius = if rng.chance(1, 10) { 0.0 } else { *rng.pick(&[-2.0f32, 0.05, 0.5, 1.0, 3.0, 10.0, 40.0]) };
+            let shared = std::cell::RefCell::new(FillTessellator::new());
             let run = move |out: &mut dyn FillGeometryBuilder, _log: &Log| -> TessellationResult {
-                let mut tess = FillTessellator::new();
+                let mut guard = shared.try_borrow_mut().ok();
+                let mut fresh = FillTessellator::new();
+                let tess: &mut FillTessellator = match guard.as_mut() { Some(g) => &mut **g, None => &mut fresh };
                 if is_rect {
                     tess.tessellate_rectangle(&Box2D { min, max: min + size }, &opts, out)
                 } else {
